@@ -349,3 +349,11 @@ def f10_oob_unchecked_element_kinds(case, bucket, detail):
         return S.sdk_type(elem).byte_len() == 0
     except Exception:
         return False
+
+
+@predicate("f11_methodcall_more_than_15_plain_args")
+def f11_methodcall_more_than_15_plain_args(case, bucket, detail):
+    """F11: InnerTxnBuilder.MethodCall with more than 15 non-transaction arguments (no ARC-4 tuple packing)."""
+    if not isinstance(case, dict) or "method" not in case or not (bucket.startswith("run-failed:LIMIT") or bucket.startswith("callee-view")):
+        return False
+    return sum(1 for p in case["method"]["params"] if p["k"] != "txn") > 15
